@@ -134,8 +134,11 @@ def gen_estimator(rng, cls, ds, ample=True, frac=None):
     return args
 
 
-def gen_gle(rng, cls):
-    entry = choice(rng, GLE_FAMILIES)
+PDCD_FAMILIES = [e for e in G.CATALOG if e[0] == "PDCD_WS"]
+
+
+def gen_gle(rng, cls, families=None):
+    entry = choice(rng, families or GLE_FAMILIES)
     prob = G.gen_problem(rng, entry, n=int(rng.integers(4, 20)), p=int(rng.integers(1, 12)))
     if prob["T"] == 1:
         # a single-column Y is documented to be squeezed to 1-D by the estimator: not multitask
@@ -150,6 +153,10 @@ def gen_gle(rng, cls):
     knobs = G.gen_knobs(rng, fam["solver"], len(prob["data"]["X"][0]), prob["fi"],
                         fam.get("alpha_max_rm") or 1.0, ample=True)
     knobs["warm_start"] = bool(rng.random() < 0.2)
+    if fam["solver"] == "PDCD_WS":
+        # the solver's own user-supplied array: the start value of the dual variable
+        knobs.pop("fit_intercept", None)
+        knobs["dual_init"] = G.sig3(0.1 * rng.standard_normal(len(prob["data"]["X"])), 3).tolist()
     if fam["penalty"] == "WeightedL1GroupL2":
         knobs["ws_strategy"] = "fixpoint"
     args = dict(family={k: fam[k] for k in ("solver", "datafit", "dargs", "penalty", "pargs")}, knobs=knobs)
@@ -223,6 +230,9 @@ def plan_C18(seed, run, engine, tier="quick"):
     rng = G.rng_for(seed, "C18", run)
     cls0 = _pick_cls(rng)
     args0, ds0 = _new_model(rng, cls0, ample=rng.random() < 0.5)
+    if cls0 == "GeneralizedLinearEstimator" and rng.random() < 0.3:
+        # a solver that carries a user-supplied array of its own (PDCD_WS.dual_init)
+        args0, ds0 = gen_gle(rng, cls0, PDCD_FAMILIES)
     if "warm_start" in args0:
         args0["warm_start"] = False
     if "knobs" in args0:
